@@ -237,7 +237,7 @@ def compare_collections(env, a, b, tag, check_links=True):
             tag, ga.label, type(ga.subset_state).__name__, type(gb.subset_state).__name__))
 
 
-def body_selection(env, names=None):
+def body_selection(env, names=None, composite=False):
     if env.symbolic:
         install_npy_stub()
         from .c08 import install_path_stub
@@ -248,9 +248,20 @@ def body_selection(env, names=None):
     name = names[env.choice('selection', len(names))]
     if name.split('[')[0].split('(')[0] in SILENTLY_EMPTY and kf_active('C02/selection-without-saver'):
         env.assume(False)
-    g = dc.new_subset_group(label='sel', subset_state=recs[name]())
+    state = recs[name]()
+    if composite:
+        # thorough tier: the selection combined with a second one (and a second group holding the partner alone)
+        partners = [n for n in sorted(recs) if not (n.split('[')[0].split('(')[0] in SILENTLY_EMPTY and kf_active('C02/selection-without-saver'))]
+        partners = partners[::max(1, len(partners) // 3)][:3]
+        pname = partners[env.choice('partner', len(partners))]
+        op = env.choice('operator', 4)
+        other = recs[pname]()
+        state = [state & other, state | other, state ^ other, ~state][op]
+        name = '%s %s %s' % (name, ['&', '|', '^', '~ (partner in a second group)'][op], pname)
+        dc.new_subset_group(label='partner', subset_state=recs[pname]())
+    g = dc.new_subset_group(label='sel', subset_state=state)
     g.style.color = '#112233'
-    g.style.alpha = 0.0 if env.choice('alpha0', 2) else 0.625
+    g.style.alpha = 0.0 if (not composite and env.choice('alpha0', 2)) else 0.625
     d1.style.alpha = 0.0 if g.style.alpha == 0.0 else 0.375
     d1.style.markersize = 11
     d1.meta['origin'] = 'verif'
@@ -452,12 +463,23 @@ def harnesses(tier):
         hs.append(Harness('selections #%d/%d' % (i, groups), _sel_body(i, groups), validate=4, weight=5, wall_s=1800,
                           bounds=dict(selection_recipes='every %dth of the recipe table (all SubsetState / Roi classes of glue.core)' % groups,
                                       payload='symbolic (2,2) and (3,) arrays', uncovered=UNCOVERED)))
+    QC = ['SliceSubsetState', 'ElementSubsetState', 'MaskSubsetState', 'CategorySubsetState', 'RoiSubsetState[PolygonalROI]', 'RangeSubsetState']
+    if tier == 'quick':
+        def body_qc(env):
+            return body_selection(env, names=QC, composite=True)
+        hs.append(Harness('composite selections (6 recipes)', body_qc, validate=4, weight=8, wall_s=1800,
+                          bounds=dict(selection_recipes=QC, combined='&, |, ^, ~ with one of 3 partner recipes', groups=2)))
+    if tier == 'thorough':
+        for i in range(groups):
+            hs.append(Harness('composite selections #%d/%d' % (i, groups), _sel_body(i, groups, composite=True), validate=4, weight=8, wall_s=3000,
+                              bounds=dict(selection_recipes='every %dth recipe combined (&, |, ^, ~) with one of 3 partner recipes' % groups,
+                                          payload='symbolic (2,2) and (3,) arrays', groups=2)))
     hs.append(Harness('links', body_links, validate=4, weight=6, wall_s=1800, bounds=dict(link_kinds=LINKS)))
     hs.append(Harness('components and coordinates', body_components, validate=4, weight=5, wall_s=1800, bounds=dict(kinds=COMPONENTS)))
     return hs
 
 
-def _sel_body(i, groups):
+def _sel_body(i, groups, composite=False):
     def body(env):
         from glue.core import Data
         probe = Data(x=np.zeros((2, 2)), y=np.zeros((2, 2)), v=np.zeros((2, 2)), label='probe')
@@ -468,6 +490,6 @@ def _sel_body(i, groups):
         probe2.add_component(CategoricalComponent(np.array(['a', 'b', 'c'])), 'tcat')
         probe2.add_component(CategoricalComponent(np.array(['c', 'b', 'b'])), 'tcat2')
         names = sorted(selection_recipes(probe, probe2))[i::groups]
-        return body_selection(env, names=names)
-    body.__name__ = 'body_selection_%d' % i
+        return body_selection(env, names=names, composite=composite)
+    body.__name__ = 'body_selection_%d%s' % (i, '_composite' if composite else '')
     return body
